@@ -44,6 +44,9 @@ var trUnits = []trUnit{
 		structs: map[string][]string{"Regex": nil},
 		enums:   []string{"Flag"},
 		funcs:   []string{"NewFlag", "Flag.String", "NewNoop", "new", "New", "Regex.Match", "Regex.Serialize", "Deserialize"}},
+	{ns: "Handlers", pkgDir: "internal/server/handlers",
+		structs: map[string][]string{"readCommand": {}},
+		funcs:   []string{"readCommand.makeGlobID"}},
 	{ns: "Mapr", pkgDir: "internal/mapr",
 		structs: map[string][]string{"AggregateSet": nil, "selectCondition": {"Field", "FieldStorage", "Operation"}, "Query": {"Select"}},
 		enums:   []string{"AggregateOperation"},
@@ -498,7 +501,7 @@ func (f *trFn) stmts(ind string, l []ast.Stmt, k cont) string {
 
 func isLogging(call *ast.CallExpr) bool {
 	s := src(call.Fun)
-	return strings.HasPrefix(s, "dlog.")
+	return strings.HasPrefix(s, "dlog.") || strings.HasSuffix(s, ".server.sendln")
 }
 
 // assignTo: `target = val` for an identifier, receiver field, array element or map entry
@@ -935,12 +938,20 @@ func (f *trFn) rangeStmt(ind string, st *ast.RangeStmt, k cont) string {
 	if f.loop != nil {
 		trFail(st, "nested loops are not in the translated subset")
 	}
+	keyName := ""
 	if st.Key != nil {
-		if id, ok := st.Key.(*ast.Ident); !ok || id.Name != "_" {
-			trFail(st, "range with an index variable")
+		id, ok := st.Key.(*ast.Ident)
+		if !ok {
+			trFail(st, "range key is not an identifier")
+		}
+		if id.Name != "_" {
+			keyName = id.Name
 		}
 	}
 	coll := f.expr(st.X)
+	if keyName != "" {
+		coll = "(goEnum " + coll + ")"
+	}
 	state := f.assignedOuter(st.Body.List)
 	f.loop = &trLoop{state: state}
 	stateTuple := f.loopState()
@@ -948,6 +959,9 @@ func (f *trFn) rangeStmt(ind string, st *ast.RangeStmt, k cont) string {
 	x := "_x"
 	if st.Value != nil {
 		x = f.declare(st.Value.(*ast.Ident).Name)
+	}
+	if keyName != "" {
+		x = "(" + f.declare(keyName) + ", " + x + ")"
 	}
 	out := fmt.Sprintf("%sgoRange %s %s\n", ind, coll, stateTuple)
 	out += fmt.Sprintf("%s  (fun %s %s =>\n", ind, stateTuple, x)
@@ -1137,6 +1151,20 @@ func (f *trFn) expr(e ast.Expr) string {
 			return "(hasPrefix " + f.expr(v.Args[1]) + " " + f.expr(v.Args[0]) + ")"
 		case "strings.Contains":
 			return "(List.contains " + f.expr(v.Args[0]) + " " + f.oneByteLit(v.Args[1]) + ")"
+		case "strings.ContainsAny":
+			c := eval(v.Args[1], nil)
+			if c == nil {
+				trFail(v, "strings.ContainsAny: the character set is not a constant")
+			}
+			set, _ := constStr(c)
+			var alts []string
+			for _, b := range []byte(set) {
+				if b >= 0x80 {
+					trFail(v, "strings.ContainsAny with a non-ASCII character set")
+				}
+				alts = append(alts, fmt.Sprintf("List.contains %s (%d : UInt8)", f.expr(v.Args[0]), b))
+			}
+			return "(" + strings.Join(alts, " || ") + ")"
 		case "strings.Join":
 			return "(joinByte " + f.oneByteLit(v.Args[1]) + " " + f.expr(v.Args[0]) + ")"
 		case "regexp.Compile":
